@@ -27,11 +27,18 @@ def gen(rng: random.Random, tier: str):
             else:
                 comps.append({"name": f"c{j}", "kind": kind, "edges": [], "setting": rng.choice([1, 2, 3])})
             nodes.append(f"c{j}")
+        defaults = [[rng.choice(["x", "y", "b"]), rng.choice([n for n in nodes if not n.startswith("c")])]] if rng.random() < 0.3 else []
+        if k % 6 == 2:
+            # directed: one component takes its first parameter (by name) from a default connection and a later one explicitly —
+            # the document must list the resolved wiring in one canonical order, as a reload does
+            leaves = [n for n in nodes if not n.startswith("c")]
+            comps.append({"name": f"c{len(comps)}", "kind": "fn_three", "edges": [["z", rng.choice(leaves)], ["y", rng.choice(leaves)]], "setting": None})
+            defaults = [["x", rng.choice(leaves)]]
         cnames = [c["name"] for c in comps]
         yield {"name": rng.choice([None, "pipe", "αβ pipe"]), "version": rng.choice([None, "1.0"]), "inputs": inputs, "literals": lits, "comps": comps,
                "aliases": [[f"al{i}", rng.choice(cnames)] for i in range(rng.randint(0, 3))],
                # default connections point at inputs / literals only: the builder's cycle check does not follow them
-               "defaults": [[rng.choice(["x", "y", "b"]), rng.choice([n for n in nodes if not n.startswith("c")])]] if rng.random() < 0.3 else [],
+               "defaults": defaults,
                "default": rng.choice([None] + cnames), "decl_seed": rng.randrange(10**6), "subprocess": k % 40 == 0}
 
 def build(case: dict, decl_seed: int | None = None, tweak: str | None = None):
